@@ -172,16 +172,16 @@ func progs() []prog {
 	R := func(ks ...int) step { return step{keys: ks} }
 	a, b, c := 1, 2, 3 // with 2 shards: shard(1)=1 shard(2)=0 shard(3)=1, so shard order differs from list order
 	return []prog{
-		{name: "excl/W|W|R", threads: [][]step{{W(a)}, {W(a)}, {R(a)}}, pb: [2]int{3, 5}},
-		{name: "excl/R|R|W", threads: [][]step{{R(a)}, {R(a)}, {W(a)}}, pb: [2]int{3, 5}},
-		{name: "excl/RW|WR", threads: [][]step{{R(a), W(a)}, {W(a), R(a)}}, pb: [2]int{3, 5}},
+		{name: "excl/W|W|R", threads: [][]step{{W(a)}, {W(a)}, {R(a)}}, pb: [2]int{4, 6}},
+		{name: "excl/R|R|W", threads: [][]step{{R(a)}, {R(a)}, {W(a)}}, pb: [2]int{4, 6}},
+		{name: "excl/RW|WR", threads: [][]step{{R(a), W(a)}, {W(a), R(a)}}, pb: [2]int{4, 6}},
 		{name: "excl/R|R|W|R", threads: [][]step{{R(a)}, {R(a)}, {W(a)}, {R(a)}}, pb: [2]int{2, 3}},
-		{name: "independence/W(a)-held-until-W(b)-done", threads: [][]step{{{write: true, keys: []int{a}, holdOn: "b-in"}}, {{write: true, keys: []int{b}, signal: "b-in"}}}, pb: [2]int{3, 5}},
-		{name: "independence/W(a)-held-until-W(c)-done", threads: [][]step{{{write: true, keys: []int{a}, holdOn: "c-in"}}, {{write: true, keys: []int{c}, signal: "c-in"}}}, pb: [2]int{3, 5}},
-		{name: "independence/R(a)-held-until-R(b)W(b)-done", threads: [][]step{{{keys: []int{a}, holdOn: "b-in"}}, {R(b), {write: true, keys: []int{b}, signal: "b-in"}}}, pb: [2]int{3, 5}},
+		{name: "independence/W(a)-held-until-W(b)-done", threads: [][]step{{{write: true, keys: []int{a}, holdOn: "b-in"}}, {{write: true, keys: []int{b}, signal: "b-in"}}}, pb: [2]int{4, 6}},
+		{name: "independence/W(a)-held-until-W(c)-done", threads: [][]step{{{write: true, keys: []int{a}, holdOn: "c-in"}}, {{write: true, keys: []int{c}, signal: "c-in"}}}, pb: [2]int{4, 6}},
+		{name: "independence/R(a)-held-until-R(b)W(b)-done", threads: [][]step{{{keys: []int{a}, holdOn: "b-in"}}, {R(b), {write: true, keys: []int{b}, signal: "b-in"}}}, pb: [2]int{4, 6}},
 		{name: "mixed-keys/W(a)R(b)|W(b)R(a)|R(a)", threads: [][]step{{W(a), R(b)}, {W(b), R(a)}, {R(a)}}, pb: [2]int{2, 4}},
-		{name: "multi/Locks[a,b]|Locks[a,b]|Lock(b)", multi: true, threads: [][]step{{W(a, b)}, {W(a, b)}, {W(b)}}, pb: [2]int{3, 5}},
-		{name: "multi/RLocks[a,b]|Locks[b,c]|RLock(a)", multi: true, threads: [][]step{{R(a, b)}, {W(b, c)}, {R(a)}}, pb: [2]int{3, 5}},
+		{name: "multi/Locks[a,b]|Locks[a,b]|Lock(b)", multi: true, threads: [][]step{{W(a, b)}, {W(a, b)}, {W(b)}}, pb: [2]int{4, 6}},
+		{name: "multi/RLocks[a,b]|Locks[b,c]|RLock(a)", multi: true, threads: [][]step{{R(a, b)}, {W(b, c)}, {R(a)}}, pb: [2]int{4, 6}},
 		{name: "multi/Locks[a,b,c]|Locks[b,c]|RLocks[a,c]", multi: true, threads: [][]step{{W(a, b, c)}, {W(b, c)}, {R(a, c)}}, pb: [2]int{2, 4}},
 		{name: "multi/Locks[a,b]|RLocks[a,b]|Locks[a,b]", multi: true, threads: [][]step{{W(a, b)}, {R(a, b)}, {W(a, b)}}, pb: [2]int{2, 4}},
 		{name: "multi/Locks[a,c]|Locks[b,c]|Lock(a)Lock(c)", multi: true, threads: [][]step{{W(a, c)}, {W(b, c)}, {W(a), W(c)}}, pb: [2]int{2, 4}},
